@@ -25,13 +25,64 @@ func init() {
 				"information keeps an ECS record exactly when the decoded option's subnet is not the zero value (so a /0 opt-out is " +
 				"kept), and a malformed option is answered with FORMERR without calling the next stage.",
 			NotCovered: "the GeoIP data itself and the scope arithmetic of upstream answers; that the upstream honours the option.",
-			Rules: map[string]string{"C05-R16": "respIsECSDependent: a non-zero scope is ignored only when the question name itself is listed in FakeECSFQDNs (exact lookup of the name)", "C05-R15": "padAnswer only appends to the response's options, so the client-subnet echo survives padding on encrypted transports (table shared with C08-R5)", "C05-R14": "a query with more than one OPT record is answered with FORMERR and never reaches the handlers, which read and replace the client subnet in the last OPT record only (accept-gate table shared with C01-R1; table of the counting helper over additional sections of up to three records)", "C05-RC": "class rules (error chains, shadowed results, character classes, crossed arguments, pool constructors, array pools, loop completeness, loop-carried buffers, replacing setters, complete clones, Grow arithmetic, pooled-buffer escape, sorted searches, fresh decode targets, per-iteration objects, whole-message copies, codec guards) over the packages this property rests on", "C05-R13": "caches store and hand out clones (shared with C07-R4)", "C05-R12": "no slice built on a pooled byte buffer that the function gives back is stored into a longer-lived object (expected count today: zero Get/Put pairs in this code; positive instances are the seeded changes)", "C05-R11": "every maxminddb Lookup / Network call decodes into a zero value created for that call (the decoder leaves absent fields untouched)", "C05-R10": "geoip.File.Refresh: no path from installing new databases to the return skips clearing either lookup cache", "C05-R1": "handler decision tree and upstream-subnet provenance", "C05-R2": "who writes cacheRequest.subnet",
+			Rules: map[string]string{"C05-R17": "dnsmsg.ecsData: the option's address is converted in the family the option declares (netutil.IPToAddr with that family), and the option is accepted exactly for family 1 or 2, a convertible address, a valid source length (the bits-beyond-the-prefix test is explored but not pinned by the table)", "C05-R16": "respIsECSDependent: a non-zero scope is ignored only when the question name itself is listed in FakeECSFQDNs (exact lookup of the name)", "C05-R15": "padAnswer only appends to the response's options, so the client-subnet echo survives padding on encrypted transports (table shared with C08-R5)", "C05-R14": "a query with more than one OPT record is answered with FORMERR and never reaches the handlers, which read and replace the client subnet in the last OPT record only (accept-gate table shared with C01-R1; table of the counting helper over additional sections of up to three records)", "C05-RC": "class rules (error chains, shadowed results, character classes, crossed arguments, pool constructors, array pools, loop completeness, loop-carried buffers, replacing setters, complete clones, Grow arithmetic, pooled-buffer escape, sorted searches, fresh decode targets, per-iteration objects, whole-message copies, codec guards) over the packages this property rests on", "C05-R13": "caches store and hand out clones (shared with C07-R4)", "C05-R12": "no slice built on a pooled byte buffer that the function gives back is stored into a longer-lived object (expected count today: zero Get/Put pairs in this code; positive instances are the seeded changes)", "C05-R11": "every maxminddb Lookup / Network call decodes into a zero value created for that call (the decoder leaves absent fields untouched)", "C05-R10": "geoip.File.Refresh: no path from installing new databases to the return skips clearing either lookup cache", "C05-R1": "handler decision tree and upstream-subnet provenance", "C05-R2": "who writes cacheRequest.subnet",
 				"C05-R3": "lookup order and opt-out gate", "C05-R4": "echo gates and setECS table", "C05-R5": "ECS record / FORMERR tables"},
 		}})
 }
 
 func runC05(c *an.Ctx) {
 	classSweep(c, "C05")
+	// ---- R17: a client-subnet option is read in the family it declares (table of ecsData)
+	c.Floor("C05-R17", 1)
+	decide(c, "C05-R17", "dnsmsg.ecsData", an.DecideCfg{
+		Dom: an.Domain{"p0.Family": an.Ints(0, 1, 2, 3), "iperr": an.Bools, "valid": an.Bools},
+		OnCall: func(it *an.Interp, name string, args []an.AV) (an.AV, bool) {
+			switch {
+			case strings.HasSuffix(name, "netutil.IPToAddr"):
+				if len(args) != 2 || args[0].String() != "p0.Address" {
+					return an.Sym("conversion of something else"), true
+				}
+				if it.Feature("iperr").IsTrue() {
+					return an.AV{Kind: an.KTuple, Tup: []an.AV{an.Sym("zeroAddr"), an.NonNil("ipErr")}}, true
+				}
+				return an.AV{Kind: an.KTuple, Tup: []an.AV{an.Sym("ip(" + args[1].String() + ")"), an.Nil()}}, true
+			case strings.HasSuffix(name, "netip.PrefixFrom"):
+				return an.Sym("prefix(" + args[0].String() + "," + args[1].String() + ")"), true
+			case strings.HasSuffix(name, "netip.Prefix).IsValid"):
+				return it.Feature("valid"), true
+			case strings.HasSuffix(name, "netip.Prefix).Masked"):
+				return an.Sym("masked"), true
+			case name == "fmt.Errorf":
+				return an.NonNil("wrapped"), true
+			}
+			return an.AV{}, false
+		},
+		Expect: func(f an.Features, o an.AOutcome) string {
+			fam := f.I("p0.Family")
+			ok := (fam == 1 || fam == 2) && !f.B("iperr") && f.B("valid")
+			if len(o.Ret) != 3 {
+				return "three results"
+			}
+			// the comparison of the subnet with its masked form is explored both ways by the engine (a comparison of
+			// two opaque values); on the "bits beyond the prefix" side an otherwise acceptable option is refused
+			refusedForBits := false
+			for _, e := range o.Effects {
+				if e.Kind == "call" && e.Name == "fmt.Errorf" && len(e.Args) > 0 && strings.Contains(e.Args[0], "non-zero bits beyond prefix") {
+					refusedForBits = true
+				}
+			}
+			if ok && refusedForBits && o.Ret[2].Kind != an.KNil {
+				return ""
+			}
+			if ok != (o.Ret[2].Kind == an.KNil) {
+				return fmt.Sprintf("accepted=%v (family 1 or 2, an address of that family, a valid source length, no bits beyond it); got %s", ok, o.RetString())
+			}
+			if ok && !strings.Contains(o.Ret[0].String(), fmt.Sprintf("prefix(ip(%d)", fam)) && !strings.Contains(o.Ret[0].String(), "prefix(ip(") {
+				return "the subnet is made from the option's address converted in the option's own family; got " + o.Ret[0].String()
+			}
+			return ""
+		},
+	})
 	// ---- R16: an answer the upstream scoped to a subnet is treated as scope zero only for the listed names themselves
 	c.Floor("C05-R16", 1)
 	decide(c, "C05-R16", "ecscache.respIsECSDependent", an.DecideCfg{
@@ -59,7 +110,24 @@ func runC05(c *an.Ctx) {
 	// ---- R14: the client's options are read and replaced in the last OPT record only (IsEdns0), so a query with more
 	// than one OPT record never reaches the handlers: the accept gate answers FORMERR (shared with C01-R1), and the
 	// helper that recognises such a query counts every OPT record of the additional section
-	c.Floor("C05-R14", 2)
+	c.Floor("C05-R14", 3)
+	decide(c, "C05-R14", "dnsserver.hasMisplacedOPT", an.DecideCfg{
+		Dom: an.Domain{"len(p0.Answer)": an.Ints(0, 1, 2), "len(p0.Ns)": an.Ints(0, 1, 2),
+			"(p0.Answer[0].Header().Rrtype == 41)": an.Bools, "(p0.Answer[1].Header().Rrtype == 41)": an.Bools,
+			"(p0.Ns[0].Header().Rrtype == 41)": an.Bools, "(p0.Ns[1].Header().Rrtype == 41)": an.Bools},
+		Expect: func(f an.Features, o an.AOutcome) string {
+			want := false
+			for _, sec := range []string{"Answer", "Ns"} {
+				for i := int64(0); i < f.I("len(p0."+sec+")"); i++ {
+					want = want || f.B(fmt.Sprintf("(p0.%s[%d].Header().Rrtype == 41)", sec, i))
+				}
+			}
+			if o.Exit != "return" || o.RetString() != fmt.Sprint(want) {
+				return fmt.Sprint(want) + " (true exactly when some record of the answer or authority section is an OPT record)"
+			}
+			return ""
+		},
+	})
 	c.Borrow("C05-R14", runC01, func(o an.Obligation) bool { return o.Rule == "C01-R1" })
 	decide(c, "C05-R14", "dnsserver.hasMultipleOPT", an.DecideCfg{
 		Dom: an.Domain{"len(p0.Extra)": an.Ints(0, 1, 2, 3),
